@@ -23,7 +23,7 @@ ASSUMPTIONS = [
     "exact containment by cube cover (self-tested against brute force)",
 ]
 REQUIRED = ["answered_true", "answered_false", "group_involved_true", "empty_port_expr_pair",
-            "nc_involved_true"]
+            "nc_involved_true", "acl_level_true"]
 GROUPS = True
 
 
@@ -46,10 +46,15 @@ def units(tier, seed):
                 out.append(dict(platform=plat, base=bi, pos=list(posset)))
     # simplest first: fewer deviating positions first
     out.sort(key=lambda u: len(u["pos"]))
+    for plat in ("ios", "nxos"):
+        out.append(dict(kind="acl_level", platform=plat, pos=[]))
     return out
 
 
 def run_unit(unit, ctx):
+    if unit.get("kind") == "acl_level":
+        _acl_level(unit["platform"], ctx)
+        return
     plat = unit["platform"]
     alph = P.alphabets(ctx.seed, plat, GROUPS)
     base = P.base_pairs(ctx.seed)[unit["base"]]
@@ -64,7 +69,67 @@ def run_unit(unit, ctx):
         ctx.sample("pair", P.describe_pair(top, bot, plat))
 
 
+def _acl_level(platform, ctx):
+    """The ACL-level reports are 'the library reports a shadow' too: every ordered pair of a small
+    entry set with address groups on BOTH sides (different members), through Acl.shading() /
+    shadow_of() on the ACL itself, on its copy, and after a platform round trip."""
+    from vf.gen import alpha as G
+    from vf.gen import programs as PR
+
+    al = {a.label: a for a in G.addr_alphabet(ctx.seed)}
+    gr = {a.group: a for a in G.group_alphabet(ctx.seed)}
+    none = G.PortX()
+    X = G.AceX
+    entries = [
+        X("permit", 0, gr["GH"], none, gr["GE"], none), X("permit", 0, gr["GE"], none, gr["GH"], none),
+        X("permit", 0, gr["G3"], none, gr["GH"], none), X("permit", 0, gr["GH"], none, al["any"], none),
+        X("permit", 0, al["host1"], none, al["host2"], none),
+        X("permit", 0, al["host1"], none, al["host_ext"], none),
+        X("permit", 0, al["host_ext"], none, al["host1"], none),
+        X("permit", 0, al["net30"], none, al["any"], none), X("permit", 0, al["any"], none, al["net24"], none),
+        X("deny", 0, al["host1"], none, al["host2"], none),
+    ]
+    other = "nxos" if platform == "ios" else "ios"
+    for top in entries:
+        for bot in entries:
+            if top is bot:
+                continue
+            for how in ("direct", "copy", "platform_roundtrip", "port_nr"):
+                ctx.ev()
+                acl = PR.build_acl([PR.Item("t", top), PR.Item("b", bot)], platform)
+                case = dict(kind="acl_level", platform=platform, how=how, top=top.text(platform),
+                            bottom=bot.text(platform))
+                try:
+                    if how == "copy":
+                        acl = acl.copy()
+                    elif how == "platform_roundtrip":
+                        acl.platform = other
+                        acl.platform = platform
+                    elif how == "port_nr":
+                        acl.port_nr = True
+                    rep = acl.shading()
+                    lst = acl.shadow_of()
+                except (ValueError, TypeError):
+                    ctx.out("refused")
+                    continue
+                except Exception as ex:  # noqa
+                    ctx.viol("Acl.shading:unexpected_exception", case, repr(ex), "report")
+                    continue
+                rt, rb = P.rule_of(top), P.rule_of(bot)
+                covered = rt.action == rb.action and rule_subset(rb, rt)
+                if (rep or lst) and not covered:
+                    ctx.viol(f"Acl.shading:unsound:{how}", case, dict(report=rep, shadow_of=lst),
+                             "no shadow (bottom is not contained in top)")
+                elif rep:
+                    ctx.out("acl_level_true")
+                    ctx.nt((platform, how, case["top"], case["bottom"]))
+    ctx.sample("acl_level", dict(platform=platform))
+
+
 def replay(case, ctx):
+    if case.get("kind") == "acl_level":
+        _acl_level(case["platform"], ctx)
+        return
     top, bot = P.build_from_description(case)
     rt, rb = rules_from_description(case)
     check_pair(top, bot, rt, rb, lambda: case, ctx, exact=case.get("exact", False))
